@@ -283,7 +283,7 @@ pub fn run(tier: Tier) -> i32 {
         // other ways for a sink to fail: WouldBlock / TimedOut instead of Other, and a call that accepts nothing (Ok(0)),
         // which a correct caller reports as WriteZero
         {
-            let stride = (b.writes / tier.pick(60, 1_000_000)).max(1);
+            let stride = (b.writes / tier.pick(200, 1_000_000)).max(1);
             let mut k = 0;
             while k < b.writes {
                 for kind in [2u8, 3] {
@@ -296,7 +296,7 @@ pub fn run(tier: Tier) -> i32 {
         // other kinds of source failure: WouldBlock and TimedOut are failures like any other; an Interrupted read may
         // be retried (then the result is the fault-free one) or reported
         if !is_stream {
-            let stride = (b.reads / tier.pick(40, 1_000_000)).max(1);
+            let stride = (b.reads / tier.pick(150, 1_000_000)).max(1);
             let mut k = 0;
             while k < b.reads {
                 for kind in [1u8, 2, 3] {
@@ -316,13 +316,13 @@ pub fn run(tier: Tier) -> i32 {
             jobs.push(Job { ti, rd: None, sk: Sk { chunk: c, vectored: true, ..Sk::default() }, fault: false, what: format!("sink with write_vectored accepting at most {} byte(s) per call, across buffers", c) });
         }
         let n = b.out.len();
-        let stride = (n / tier.pick(400, 20_000)).max(1);
+        let stride = (n / tier.pick(1500, 20_000)).max(1);
         let mut p = 1;
         while p < n {
             jobs.push(Job { ti, rd: None, sk: Sk { cuts: vec![p], ..Sk::default() }, fault: false, what: format!("sink splits the write crossing byte {}", p) });
             p += stride;
         }
-        let stride1 = (b.writes_c1 / tier.pick(600, 20_000)).max(1);
+        let stride1 = (b.writes_c1 / tier.pick(2000, 20_000)).max(1);
         let mut k = 0;
         while k < b.writes_c1 {
             jobs.push(Job { ti, rd: None, sk: Sk { chunk: 1, fail_write_at: Some(k), ..Sk::default() }, fault: true, what: format!("1-byte sink, write call #{} of {} fails", k, b.writes_c1) });
